@@ -214,6 +214,9 @@ func (f *family) ladder(thorough bool) []int {
 		if n*f.bytesPer+64 > maxInputSize {
 			break
 		}
+		if !thorough && n*f.bytesPer > 1<<19 && len(out) >= 3 {
+			break // quick tier: inputs up to 512 KiB
+		}
 		out = append(out, n)
 	}
 	return out
